@@ -58,6 +58,8 @@ type workerLine struct {
 	I   uint64 `json:"i"`
 	Res Result `json:"res"`
 	Ms  int64  `json:"ms"`
+	// Resume: the worker process retires (its memory has grown); a fresh process continues at run I.
+	Resume bool `json:"resume,omitempty"`
 }
 
 type knownFinding struct {
@@ -157,6 +159,7 @@ func runWorker(h Harness, tier string, seed uint64, spec string) {
 	out := bufio.NewWriterSize(realStdout, 1<<16)
 	defer out.Flush()
 	enc := json.NewEncoder(out)
+	done := 0
 	for i := start; i < count; i += stride {
 		t0 := time.Now()
 		ch := choice.New(runSeed(seed, h.ID(), i))
@@ -167,6 +170,17 @@ func runWorker(h Harness, tier string, seed uint64, spec string) {
 		}
 		_ = enc.Encode(workerLine{I: i, Res: res, Ms: time.Since(t0).Milliseconds()})
 		out.Flush()
+		done++
+		if done%32 == 0 && i+stride < count {
+			// code under test keeps state in process globals; a worker that has grown hands over to a fresh process
+			var ms runtime.MemStats
+			runtime.ReadMemStats(&ms)
+			if ms.Sys > envUint("VERIF_WORKER_MEM_MB", 1024)<<20 {
+				_ = enc.Encode(workerLine{I: i + stride, Resume: true})
+				out.Flush()
+				return
+			}
+		}
 	}
 }
 
@@ -327,44 +341,58 @@ func runBatch(h Harness, tier string, seed uint64, runsOverride, budgetS int) in
 		wg.Add(1)
 		go func(w int) {
 			defer wg.Done()
-			cmd := exec.Command(os.Args[0], h.ID(), "--tier", tier, "--seed", strconv.FormatUint(seed, 10),
-				"--worker", fmt.Sprintf("%d,%d,%d", w, workers, n))
-			var stderr bytes.Buffer
-			cmd.Stderr = &stderr
-			pipe, err := cmd.StdoutPipe()
-			if err != nil {
-				mu.Lock()
-				workerErr = append(workerErr, err.Error())
-				mu.Unlock()
-				return
-			}
-			if err := cmd.Start(); err != nil {
-				mu.Lock()
-				workerErr = append(workerErr, err.Error())
-				mu.Unlock()
-				return
-			}
-			sc := bufio.NewScanner(pipe)
-			sc.Buffer(make([]byte, 1<<20), 1<<28)
 			got := 0
-			for sc.Scan() {
-				var wl workerLine
-				if !bytes.HasPrefix(sc.Bytes(), []byte("{\"i\"")) {
-					continue // log output of the code under test
+			next := uint64(w)
+			var stderr bytes.Buffer
+			var err error
+			for resume := true; resume; {
+				resume = false
+				cmd := exec.Command(os.Args[0], h.ID(), "--tier", tier, "--seed", strconv.FormatUint(seed, 10),
+					"--worker", fmt.Sprintf("%d,%d,%d", next, workers, n))
+				stderr.Reset()
+				cmd.Stderr = &stderr
+				pipe, perr := cmd.StdoutPipe()
+				if perr != nil {
+					mu.Lock()
+					workerErr = append(workerErr, perr.Error())
+					mu.Unlock()
+					return
 				}
-				if err := json.Unmarshal(sc.Bytes(), &wl); err != nil {
-					continue
+				if serr := cmd.Start(); serr != nil {
+					mu.Lock()
+					workerErr = append(workerErr, serr.Error())
+					mu.Unlock()
+					return
 				}
-				got++
-				mu.Lock()
-				lines = append(lines, wl)
-				mu.Unlock()
-				if !deadline.IsZero() && time.Now().After(deadline) {
-					_ = cmd.Process.Kill()
+				sc := bufio.NewScanner(pipe)
+				sc.Buffer(make([]byte, 1<<20), 1<<28)
+				for sc.Scan() {
+					var wl workerLine
+					if !bytes.HasPrefix(sc.Bytes(), []byte("{\"i\"")) {
+						continue // log output of the code under test
+					}
+					if jerr := json.Unmarshal(sc.Bytes(), &wl); jerr != nil {
+						continue
+					}
+					if wl.Resume {
+						next, resume = wl.I, true
+						continue
+					}
+					got++
+					mu.Lock()
+					lines = append(lines, wl)
+					mu.Unlock()
+					if !deadline.IsZero() && time.Now().After(deadline) {
+						_ = cmd.Process.Kill()
+						resume = false
+						break
+					}
+				}
+				err = cmd.Wait()
+				if err != nil {
 					break
 				}
 			}
-			err = cmd.Wait()
 			expected := 0
 			for i := w; i < n; i += workers {
 				expected++
